@@ -211,7 +211,40 @@ def run(ctx):
     ctx.check(bool(st3) and all(x[0] for x in st3) and not bad3, 'R3', 'update(): the energy of the elapsed interval is added before pstate_ is re-saved, and pstate_ is re-saved on every path', where(upf),
               bad3[0] if bad3 else ('' if all(x[0] for x in st3) else 'a path leaves update() without saving the pstate of the next interval'), key='R3|update|price then re-save')
     run_update_guards(ctx, P, A)
+    run_units(ctx, P, A)
     return EXPLANATION
+
+
+def run_units(ctx, P, A):
+    """R5: joules, watts, dates and durations (P20 with an affine base)"""
+    from .. import dims
+    ctx.rule('R5', 'units of the energy account: total_energy_ in [joule], the power values (idle, epsilon, max, slope, off, busy) and what get_current_watts_value/get_power '
+             'return in [joule/second], last_updated_ and the clock are dates, loads and speeds in [amount/second] so that load/speed is a pure number; energy is only ever '
+             'increased by power x (date - date)', 14)
+    D = dims.Dims(('joule', 'second', 'amount', '@date'), {})
+    u = D.unit
+    J, W, S, DATE, RATE = u(joule=1), u(joule=1, second=-1), u(second=1), u(second=1, **{'@date': 1}), u(amount=1, second=-1)
+    PL = 'simgrid::plugin::'
+    D.fields = {HE + '::total_energy_': J, HE + '::last_updated_': DATE, HE + '::watts_off_': W, LE + '::total_energy_': J, LE + '::last_updated_': DATE, LE + '::idle_': W, LE + '::busy_': W,
+                PL + 'PowerRange::idle_': W, PL + 'PowerRange::epsilon_': W, PL + 'PowerRange::max_': W, PL + 'PowerRange::slope_': W}
+    D.getters = {'simgrid::s4u::Engine::get_clock': DATE, HE + '::get_current_watts_value': W, LE + '::get_power': W, HE + '::get_last_update_time': DATE, HE + '::get_consumed_energy': J, LE + '::get_consumed_energy': J,
+                 'simgrid::s4u::Host::get_load': RATE, 'simgrid::s4u::Host::get_pstate_speed': RATE, 'simgrid::s4u::Host::get_speed': RATE, 'simgrid::s4u::Link::get_load': RATE, 'simgrid::s4u::Link::get_bandwidth': RATE,
+                 HE + '::get_watt_idle_at': W, HE + '::get_watt_min_at': W, HE + '::get_watt_max_at': W, HE + '::get_power_range_slope_at': W}
+    D.ret_units = {HE + '::get_current_watts_value': W, LE + '::get_power': W, HE + '::get_consumed_energy': J, LE + '::get_consumed_energy': J,
+                   HE + '::get_watt_idle_at': W, HE + '::get_watt_min_at': W, HE + '::get_watt_max_at': W, HE + '::get_power_range_slope_at': W}
+    fields_seen = set(f_[2] for cls in (HE, LE) for f_ in lib.fields(P, cls))
+    fns = sorted([f for f in P.fns.values() if f.get('blocks') and f['q'].startswith((HE + '::', LE + '::')) and f['q'].rsplit('::', 1)[-1] in
+                  ('update', 'get_current_watts_value', 'get_power', 'get_consumed_energy', 'get_watt_idle_at', 'get_watt_min_at', 'get_watt_max_at', 'get_power_range_slope_at')], key=lambda f: f['key'])
+    ctx.require(len(fns) >= 6 and HE + '::total_energy_' in fields_seen, 'R5', 'energy functions / fields not found (%d)' % len(fns))
+    D.run(A, fns)
+    for r in D.decided:
+        ctx.holds('R5', '%s: %s %s %s' % (r['fn'].replace(PL, ''), r['a'][:70], r['what'], r['b'][:70]), '', '[%s]' % D.show(r['da']))
+    for r in D.conflicts:
+        f = [x for x in fns if x['q'] == r['fn']][0]
+        ctx.violation('R5', '%s: %s %s %s' % (r['fn'].replace(PL, ''), r['a'][:70], r['what'], r['b'][:70]), where(f, r['line']), 'left side in [%s], right side in [%s]' % (D.show(r['da']), D.show(r['db'])),
+                      key='R5|%s|%s %s %s' % (r['fn'].replace(PL, ''), r['a'][:50], r['what'], r['b'][:50]))
+    for frag in ('total_energy_', 'energy_this_step', 'cpu_load'):
+        ctx.require(any(frag in r['a'] or frag in r['b'] for r in D.decided + D.conflicts), 'R5', 'no decided site mentions %s' % frag)
 
 
 def run_update_guards(ctx, P, A):
